@@ -1,4 +1,5 @@
 import Cvise.Model.Binary
+import Cvise.Model.BinaryVariants
 import Cvise.Drv.Util
 namespace Cvise.Drv
 open Cvise
@@ -53,6 +54,46 @@ def handleBinRunT (args : List String) : String :=
     | none => "out-of-fuel"
     | some (r, tr) =>
       let t := tr.map fun (i, e, v) => s!"{i}-{e}{if v then "A" else "R"}"
+      s!"{" ".intercalate t} => {showNatList r}"
+  | _ => "bad-op"
+
+def parseTable (table : String) : List (List Nat × Bool) :=
+  if table = "-" then [] else
+    (table.splitOn ";").map fun e => match e.splitOn ":" with
+      | [c, v] => (natList c, bool! v)
+      | _ => ([], false)
+
+def showTrace (tr : List (Nat × Nat × Bool)) : String :=
+  " ".intercalate (tr.map fun (i, e, v) => s!"{i}-{e}{if v then "A" else "R"}")
+
+/-- `binrung <n> R <required ids>` / `binrung <n> T <table>`: the gcda run (restart after every accepted removal) -/
+def handleBinRunG (args : List String) : String :=
+  match args with
+  | [n, kind, arg] =>
+    let n := nat! n
+    let test : List Nat → Bool :=
+      if kind = "R" then (let R := natList arg; fun l => R.all (fun r => l.contains r))
+      else (let tbl := parseTable arg; fun l => (tbl.lookup l).getD false)
+    match gcdaStartTrace test (gcdaFuel n) (List.range n) with
+    | none => "out-of-fuel"
+    | some (r, tr) => s!"{showTrace tr} => {showNatList r}"
+  | _ => "bad-op"
+
+/-- `binruni <n> <b|0|1> R <required ids>` / `… T <table>`: the ifs run; the test is the items-only verdict, and
+    (mode 0 / 1) additionally requires the value to be 0 / 1 -/
+def handleBinRunI (args : List String) : String :=
+  match args with
+  | [n, vmode, kind, arg] =>
+    let n := nat! n
+    let base : List Nat → Bool :=
+      if kind = "R" then (let R := natList arg; fun l => R.all (fun r => l.contains r))
+      else (let tbl := parseTable arg; fun l => (tbl.lookup l).getD false)
+    let test : List Nat → Bool → Bool := fun l v =>
+      base l && (if vmode = "b" then true else if vmode = "1" then v else !v)
+    match ifsStartTrace test (ifsFuel n) (List.range n) with
+    | none => "out-of-fuel"
+    | some (r, tr) =>
+      let t := tr.map fun (i, e, v, a) => s!"{i}-{e}/{if v then 1 else 0}{if a then "A" else "R"}"
       s!"{" ".intercalate t} => {showNatList r}"
   | _ => "bad-op"
 
